@@ -19,7 +19,12 @@ void SVD(matrix *m, matrix *U, matrix *S, matrix *VT){
 }
 #endif
 void harness(void){
-  matrix *m,*x; NewMatrix(&m,N,N); initMatrix(&x);
+  matrix *m,*x; NewMatrix(&m,N,N);
+#if defined(HP_PREFILL) && HP_PREFILL
+  NewMatrix(&x,N,N); for(size_t i=0;i<N;i++)for(size_t j=0;j<N;j++) x->data[i][j]=in_double(-1e3,1e3);      /* a re-used result matrix of the final shape */
+#else
+  initMatrix(&x);
+#endif
 #if HP_WHICH==0
   for(size_t i=0;i<N;i++){ Sg[i]=in_double(1e-2,1e2); for(size_t j=0;j<N;j++){ P[i][j]=in_double(-1,1); Q[i][j]=in_double(-1,1); } }
   for(size_t i=0;i<N;i++)for(size_t j=0;j<N;j++){ double a=0,b=0; for(size_t k=0;k<N;k++){ a+=P[k][i]*P[k][j]; b+=Q[i][k]*Q[j][k]; } ASSUME(a==(i==j?1.0:0.0)); ASSUME(b==(i==j?1.0:0.0)); }   /* orthonormal columns of P, rows of Q */
